@@ -158,6 +158,13 @@ def gen_script(rng, name, profile, max_ops=50):
                     verdict = 1
                 lines.append(("beh %d %s %d %s" % (cb, nth, verdict, body)).rstrip())
     issued = 0
+    if profile == "ordered" and rng.random() < 0.35:
+        # a long run of events over very few keys: more than 16 equal keys in the list at once (sort algorithms that are
+        # stable only for short ranges), with a listener on the key so that the dispatch order is visible
+        lines.append("do listen 0 %d" % cbs[0])
+        issued += 1
+        for _ in range(rng.randint(18, 40)):
+            lines.append("do enqueue %d %d" % (rng.randrange(min(nk, 2)), rng.randint(0, 50)))
     for _ in range(rng.randint(6, max_ops)):
         c = _cmd(rng, profile, nk, issued, cbs, preds, filters)
         if c.split()[0] in ("listen", "listenfront", "listenbefore", "addfilter", "listencond", "listenadapt"):
